@@ -20,6 +20,9 @@ import (
 
 // Quiet routes the code under test's logging to io.Discard.
 func Quiet() {
+	if os.Getenv("VERIF_LOG") != "" {
+		return
+	}
 	logger := zlog.NewStructured()
 	logger.SetWriter(zlog.NewTerminalWriter(io.Discard))
 	zlog.SetDefault(logger)
